@@ -348,6 +348,19 @@ def run_property(mod, tier, seed, collect=False, only=None, pins_only=False):
         violations += 1
         _emit_violation(prop, subname, fail)
 
+    # 3b. coverage-guided campaigns (thorough tier): Atheris drives the same strategies and oracles
+    fuzz_results = {}
+    fuzz_note = None
+    fuzz_plan = getattr(mod, "FUZZ", {}) if (tier == "thorough" and not pins_only) else {}
+    fuzz_plan = {k: v for k, v in fuzz_plan.items() if k in by_name}
+    if fuzz_plan:
+        fuzz_results, fuzz_note, ffails = _run_fuzz(mod, fuzz_plan, seed)
+        for subname, fail in ffails:
+            violations += 1
+            _emit_violation(prop, subname, fail, tag="fuzz-" + "+".join(fail["bucket"]))
+    if fuzz_note:
+        notes.append(fuzz_note)
+
     # 4. evidence
     cov_subs = {}
     total_evals = 0
@@ -366,6 +379,10 @@ def run_property(mod, tier, seed, collect=False, only=None, pins_only=False):
             "exhaustive": bool(s.exhaustive), "labels": lab, "excluded_known": dict(r["excluded_known"]),
             "inconclusive": r["inconclusive"], "wall_s": round(r["wall_s"], 2),
         }
+        if s.name in fuzz_results:
+            fr = fuzz_results[s.name]
+            cov_subs[s.name]["fuzz"] = fr
+            total_evals += fr["evaluations"]
         if r["collected"]:
             cov_subs[s.name]["collected"] = {k: {"count": v["count"], "msg": v["msg"][:400], "case": v["case"]}
                                              for k, v in r["collected"].items()}
@@ -399,6 +416,64 @@ def run_property(mod, tier, seed, collect=False, only=None, pins_only=False):
     for subname, shard, he in harness_errors:
         print("HARNESS-ERROR subcheck=%s shard=%d\n%s" % (subname, shard, he), file=sys.stderr)
     return ev, violations, harness_errors
+
+
+def _run_fuzz(mod, plan, seed, workers_per_sub=4):
+    """plan: {subcheck name: runs per worker}.  Each worker is a separate process (vlib.fuzzworker)."""
+    import shutil
+    import subprocess
+    import tempfile
+    from concurrent.futures import ThreadPoolExecutor
+    deps = os.path.join(VERIF_DIR, ".deps")
+    if not os.path.isdir(os.path.join(deps, "atheris")):
+        return {}, "atheris not installed (run setup_cmd): coverage-guided campaigns skipped", []
+    tmp = tempfile.mkdtemp(prefix="verif-fuzz-")
+    jobs = []
+    for subname, runs in plan.items():
+        for k in range(workers_per_sub):
+            jobs.append((subname, k, runs, os.path.join(tmp, "%s-%d.json" % (subname, k))))
+
+    def run(job):
+        subname, k, runs, out = job
+        env = dict(os.environ, PYTHONHASHSEED="0", VERIF_REPO=REPO_DIR)
+        cmd = [sys.executable, "-m", "vlib.fuzzworker", mod.__name__, subname,
+               str(derive_seed(seed, mod.PROPERTY, subname, "fuzz", k) % (2**31 - 1)), str(runs), out]
+        p = subprocess.run(cmd, cwd=VERIF_DIR, env=env, stdout=subprocess.DEVNULL, stderr=subprocess.DEVNULL)
+        try:
+            with open(out) as f:
+                return subname, json.load(f), p.returncode
+        except Exception:
+            return subname, None, p.returncode
+
+    results, fails = {}, []
+    note = None
+    try:
+        with ThreadPoolExecutor(max_workers=NPROC) as ex:
+            for subname, res, rc in ex.map(run, jobs):
+                if res is None:
+                    note = "a fuzz worker produced no result file (exit %s)" % rc
+                    continue
+                agg = results.setdefault(subname, {"evaluations": 0, "distinct_nontrivial_per_worker": [], "labels": {},
+                                                   "excluded_known": {}, "workers": 0, "engine": "atheris/libFuzzer via hypothesis fuzz_one_input"})
+                agg["evaluations"] += res["evaluations"]
+                agg["distinct_nontrivial_per_worker"].append(res["distinct_nontrivial"])
+                agg["workers"] += 1
+                for k2, v in res["labels"].items():
+                    agg["labels"][k2] = agg["labels"].get(k2, 0) + v
+                for k2, v in res["excluded_known"].items():
+                    agg["excluded_known"][k2] = agg["excluded_known"].get(k2, 0) + v
+                if res["failure"]:
+                    fails.append((subname, res["failure"]))
+    finally:
+        shutil.rmtree(tmp, ignore_errors=True)
+    # one failure per (subcheck, bucket)
+    seen, uniq = set(), []
+    for subname, f in fails:
+        key = (subname, tuple(f["bucket"]))
+        if key not in seen:
+            seen.add(key)
+            uniq.append((subname, f))
+    return results, note, uniq
 
 
 def _truncate(obj, lim=1500):
